@@ -1120,6 +1120,9 @@ func (e *Evaluator) evalPatternRules(patternRules []*Rule) error {
 }
 
 func (e *Evaluator) GetRootJson() (string, error) {
+	if e.root == nil {
+		return "", fmt.Errorf("no JSON value was read")
+	}
 	val, err := e.root.Value.ToGoValue()
 	if err != nil {
 		return "", err
